@@ -432,8 +432,53 @@ class Repo:
 def _split_tuple_assignments(tree):
     """`a, b = x, y` with independent sides is the same as `a = x; b = y` (no target occurs in a later right-hand side): the
     parallel form is split so that every store has its own value expression"""
+    OPS = {"lt": ast.Lt, "le": ast.LtE, "gt": ast.Gt, "ge": ast.GtE, "eq": ast.Eq, "ne": ast.NotEq}
+
     class T(ast.NodeTransformer):
+        def visit_Call(self, n):
+            self.generic_visit(n)
+            # f(*(g(x) for x in (a, b)))  ->  f(g(a), g(b))     (a literal tuple of at most four elements)
+            if any(isinstance(a, ast.Starred) and isinstance(a.value, (ast.GeneratorExp, ast.ListComp)) for a in n.args):
+                args, ok = [], True
+                for a in n.args:
+                    c = a.value if isinstance(a, ast.Starred) else None
+                    if isinstance(c, (ast.GeneratorExp, ast.ListComp)) and len(c.generators) == 1 and not c.generators[0].ifs \
+                            and isinstance(c.generators[0].iter, (ast.Tuple, ast.List)) and len(c.generators[0].iter.elts) <= 4 \
+                            and isinstance(c.generators[0].target, ast.Name):
+                        var = c.generators[0].target.id
+                        for el in c.generators[0].iter.elts:
+                            class S(ast.NodeTransformer):
+                                def visit_Name(self, x, el=el, var=var):
+                                    import copy as _c
+                                    return _c.deepcopy(el) if x.id == var and isinstance(x.ctx, ast.Load) else x
+                            import copy as _c
+                            args.append(S().visit(_c.deepcopy(c.elt)))
+                    elif isinstance(a, ast.Starred):
+                        ok = False
+                        break
+                    else:
+                        args.append(a)
+                if ok:
+                    n = ast.copy_location(ast.Call(func=n.func, args=args, keywords=n.keywords), n)
+            # operator.lt(a, b) -> a < b
+            if isinstance(n.func, ast.Attribute) and isinstance(n.func.value, ast.Name) and n.func.value.id == "operator" and n.func.attr in OPS \
+                    and len(n.args) == 2 and not n.keywords and not any(isinstance(a, ast.Starred) for a in n.args):
+                return ast.copy_location(ast.Compare(left=n.args[0], ops=[OPS[n.func.attr]()], comparators=[n.args[1]]), n)
+            return n
+
         def visit_Assign(self, n):
+            n = self.generic_visit(n)
+            # a = b = v   ->   b = v; a = b      (b a plain name: both targets denote the same object afterwards)
+            if len(n.targets) > 1 and isinstance(n.targets[-1], ast.Name):
+                last = n.targets[-1]
+                out = [ast.copy_location(ast.Assign(targets=[last], value=n.value, type_comment=None), n)]
+                for t in n.targets[:-1]:
+                    out.append(ast.copy_location(ast.Assign(targets=[t], value=ast.Name(id=last.id, ctx=ast.Load()), type_comment=None), n))
+                res = []
+                for o in out:
+                    r_ = self.visit_Assign(o)
+                    res += r_ if isinstance(r_, list) else [r_]
+                return res
             if len(n.targets) == 1 and isinstance(n.targets[0], (ast.Tuple, ast.List)) and isinstance(n.value, (ast.Tuple, ast.List)) \
                     and len(n.targets[0].elts) == len(n.value.elts) and len(n.value.elts) > 1 \
                     and not any(isinstance(x, ast.Starred) for x in n.targets[0].elts + n.value.elts):
@@ -482,6 +527,7 @@ def _split_tuple_assignments(tree):
                     return ast.copy_location(ast.AugAssign(target=n.targets[0], op=n.value.op, value=n.value.right), n)
             return n
         def visit_Return(self, n):
+            n = self.generic_visit(n)
             if isinstance(n.value, ast.IfExp) and os.environ.get("VERIF_KEEP_IFEXP") != "1":
                 a = ast.copy_location(ast.Return(value=n.value.body), n)
                 b = ast.copy_location(ast.Return(value=n.value.orelse), n)
